@@ -459,6 +459,24 @@ class SummGen(Gen):
 
         ms, sd = self.metas(n_slices, slice_diff)
         r = self.r
+        if r.random() < 0.25:                    # falsy detail values (0, 0.0, False, ""), shared or ==-equal or differing
+            fam = r.choice(["num", "num", "str"])
+            key, where = r.choice(["z0", "zf"]), r.choice(["details", "loss_details"])
+            ms2 = []
+            for i, m in enumerate(ms):
+                if fam == "num":
+                    v = r.choice([0, 0.0, False]) if r.random() < 0.85 else r.choice([1, 2.5, True])
+                else:
+                    v = "" if r.random() < 0.85 else "x"
+                d, ld = dict(m.details), dict(m.loss_details)
+                (d if where == "details" else ld)[key] = v
+                ms2.append(Metadata(risk_basis=m.risk_basis, country=m.country, currency=m.currency,
+                                    reinsurance_basis=m.reinsurance_basis, loss_definition=m.loss_definition,
+                                    per_occurrence_limit=m.per_occurrence_limit, details=d, loss_details=ld))
+            ms = []
+            for m in ms2:
+                if m not in ms:
+                    ms.append(m)
         if r.random() < 0.15:                    # a shared / partly shared None-valued detail, numeric == variants
             ms2 = []
             for i, m in enumerate(ms):
@@ -496,7 +514,7 @@ class SummGen(Gen):
             slice_diff, n_slices = "risk_basis", max(2, n_slices)
         ms, slice_diff = self.metas_ext(n_slices, slice_diff)
         layout = r.choice(["regular", "ragged", "holey", "irregular", "single_period", "single_lag"])
-        rows, _ = self.coords(layout, None, r.randint(1, 3), r.randint(1, 3))
+        rows, _ = self.coords(layout, None, r.randint(1, 3), r.randint(1, 4))
         fields = self.pick_fields(r.randint(1, 4))
         vk = r.choice(["int", "int", "float", "arr_int", "arr_float"])
         fkind = {f: vk for f in fields}
@@ -520,8 +538,11 @@ class SummGen(Gen):
                 kinds = {f: (vk if f in tied else r.choice(["int", "float", "arr_int", "arr_float"])) for f in fields}
                 if r.random() < 0.3:
                     n_samples = r.choice([2, 3])
+            own_cadence = kind != "layers" and si > 0 and r.random() < 0.4
             for ps, pe, evs in rows_s:
                 prev = ps - datetime.timedelta(days=1)
+                if own_cadence:                  # this slice is evaluated on its own (coarser) grid: incremental
+                    evs = [e for e in evs[:-1] if r.random() < 0.5] + list(evs[-1:])   # cells then share (period, eval) but differ in prev
                 for e in evs:
                     vals = {f: self.field_value(kinds[f], f, n_samples) for f in sf}
                     if kind == "layers":         # premium identical across loss layers
@@ -547,7 +568,9 @@ class SummGen(Gen):
                 c.values[up] = 3
                 if both:
                     c.values[up.lower()] = 4
-        info = {"kind": kind, "basis": basis, "n_slices": len(ms), "slice_diff": slice_diff, "values": vk if kind != "mixedkind" else "mixed",
+        incm = basis == "inc" and len({(c.period_start, c.period_end, c.evaluation_date, c.prev_evaluation_date) for c in cells}) \
+            > len({(c.period_start, c.period_end, c.evaluation_date) for c in cells})
+        info = {"kind": kind, "basis": basis, "mixed_prev": incm, "n_slices": len(ms), "slice_diff": slice_diff, "values": vk if kind != "mixedkind" else "mixed",
                 "layout": layout, "n_cells": len(cells), "fields": fields, "prem": prem}
         return cells, prem, info
 
